@@ -77,7 +77,7 @@ class G:
     def build(self, variant='G1'):
         PM, tm = self.PM, self.tm
         r = self.c.root()
-        if variant in ('G2', 'G3'):
+        if variant in ('G2', 'G3', 'G4'):
             return self._build_undo_chains(variant)
         r['a'] = PM()
         r['g'] = PM()
@@ -134,6 +134,22 @@ class G:
             r['keep']['n'] = 1
             self.commit('t6 unrelated')
             r['keep']['n'] = 2
+            self.commit('t7 unrelated')
+        elif variant == 'G4':
+            # one undo transaction that undoes two transactions of the same object holds TWO records of it (the last
+            # one is its revision); a later undo record points back at that revision
+            A['v'] = 2
+            self.commit('t2 A.v = 2')
+            A['v'] = 3
+            self.commit('t3 A.v = 3')
+            import base64
+            ids = [d['id'] for d in self.db.undoLog(0, 2)]
+            self.db.undoMultiple(ids, self.tm.get())
+            self.commit('t4 undo t3 and t2 in one transaction: two records of A')
+            A['v'] = 5
+            self.commit('t5 A.v = 5')
+            self._undo_last('t6 undo t5: back-pointer to the second record of A in t4')
+            r['keep']['n'] = 1
             self.commit('t7 unrelated')
         else:
             del r['A']
